@@ -310,6 +310,15 @@ def run(ctx):
                 sel = rng.sample(rel_dirs + rel_files, min(k, len(rel_dirs + rel_files)))
                 if not sel:
                     continue
+                if rng.random() < 0.35 and rel_dirs:
+                    # the same places spelled through another folder: start / relative_path(start, target) (dot-dot inside),
+                    # as include paths are reported by the reader
+                    sel = list(sel)
+                    for j in range(len(sel)):
+                        start = rng.choice(rel_dirs)
+                        relp = os.path.relpath(sel[j], start)
+                        if relp.startswith("..") and rng.random() < 0.6:
+                            sel[j] = os.path.join(start, relp)
                 c = {"kind": "hcr", "dirs": rel_dirs, "files": rel_files, "paths": sel}
                 r = oracle(c)
                 if r:
